@@ -3,6 +3,7 @@
 //!        (`sign` through the inherent method AND the `Signed` trait, `as_relaxed()` for an RBig — all forms must agree;
 //!         `is_int` exists for RBig only)
 //!   qp.consts <R|X>                ->  `ZERO ONE NEG_ONE default()` as stored pairs
+//!   qp.prog <regs…> ; <steps…>       ->  alias of `prog` of ops_ratio.rs (the model side uses the guarded pow)
 //!   qp.pow q:<num>/<den>:<R|X> d:<n> ->  `<num>/<den>` of `pow(n)` as stored, or `panic AllocTooMuch` (round 6: the allocation
 //!        guards of IBig::pow / UBig::pow under Repr::pow — exp.checked_mul(shift), Buffer::allocate of the final shift)
 use dashu_base::{Sign, Signed};
@@ -52,6 +53,11 @@ fn pair(n: &IBig, d: &UBig) -> String {
 
 pub fn dispatch(op: &str, args: &[&str]) -> Option<Res> {
     let o = op.strip_prefix("qp.")?;
+    if o == "prog" {
+        // round 6: the same register programs as `prog` (ops_ratio.rs; the real `pow` raises its allocation panic by itself);
+        // the Lean side runs them with the guarded `pow` (`runG`)
+        return super::ops_ratio::dispatch("prog", args);
+    }
     let r: Res = (|| -> Res {
         match o {
             "preds" => {
